@@ -29,7 +29,7 @@ def _elementwise(f, x):
     return f(x)
 
 
-class NumpyO(models.NumpyModel):
+class NumpyO:
     def sym_getattr(self, interp, name):
         f = getattr(self, "np_" + name, None)
         if f is not None:
@@ -57,3 +57,63 @@ class NumpyO(models.NumpyModel):
 
     def np_logical_and(self, interp, a, b):
         return _np.logical_and(a, b)
+
+
+class OArr(_np.ndarray):
+    """object ndarray whose min/max reductions are computed with symbolic min/max (If-terms) instead of Python comparisons,
+    so that a reduction over n symbolic reals does not fork the path n-1 times"""
+
+    def _reduce(self, f, axis):
+        if axis is None:
+            vals = list(self.reshape(-1))
+            r = vals[0]
+            for v in vals[1:]:
+                r = f(r, v)
+            return r
+        moved = _np.moveaxis(_np.asarray(self, dtype=object), axis, -1)
+        out = _np.empty(moved.shape[:-1], dtype=object)
+        for idx in _np.ndindex(*moved.shape[:-1]):
+            vals = list(moved[idx])
+            r = vals[0]
+            for v in vals[1:]:
+                r = f(r, v)
+            out[idx] = r
+        return out.view(OArr)
+
+    def min(self, axis=None, **k):
+        return self._reduce(core.smin, axis)
+
+    def max(self, axis=None, **k):
+        return self._reduce(core.smax, axis)
+
+
+def oarr(shape, fill):
+    a = _np.empty(shape, dtype=object)
+    for idx in _np.ndindex(*a.shape):
+        a[idx] = fill(*idx)
+    return a.view(OArr)
+
+
+EXP = z3.Function("exp", z3.RealSort(), z3.RealSort())
+LOG = z3.Function("log", z3.RealSort(), z3.RealSort())
+
+
+def _np_zeros(self, interp, shape, dtype=float, **k):
+    if dtype in (float, _np.float32, _np.float64, "float32", "float64"):
+        a = _np.empty(shape, dtype=object)
+        a[...] = 0.0
+        return a.view(OArr)
+    return _np.zeros(shape, dtype=dtype, **k)
+
+
+def _np_exp(self, interp, x, **k):
+    return _elementwise(lambda v: SReal(EXP(rterm(v))) if is_sym(v) else math.exp(v), x)
+
+
+def _np_log(self, interp, x, **k):
+    return _elementwise(lambda v: SReal(LOG(rterm(v))) if is_sym(v) else math.log(v), x)
+
+
+NumpyO.np_zeros = _np_zeros
+NumpyO.np_exp = _np_exp
+NumpyO.np_log = _np_log
